@@ -11,11 +11,15 @@ pub struct Src {
     pub ended: bool,
     pub polled_after_end: bool,
     pub next_calls: usize,
+    /// checked inside `next` itself, so that the forms that end in a panic (from_iter / collect) are covered as well
+    pub max_calls: usize,
 }
 impl Iterator for Src {
     type Item = Tr;
     fn next(&mut self) -> Option<Tr> {
         self.next_calls += 1;
+        kani_cover!(self.next_calls > self.max_calls, "MUST_NOT_REACH: more than N + 1 items pulled from the source");
+        kani_cover!(self.ended, "MUST_NOT_REACH: source polled again after it returned None");
         if self.ended {
             self.polled_after_end = true;
             return Some(Tr::new(40));
@@ -36,12 +40,13 @@ fn script(maxc: usize) -> Src {
     let count = any_upto(maxc);
     let lo = any_usize();
     let hi = if any_bool() { Some(any_usize()) } else { None };
-    Src { count, produced: 0, lo, hi, ended: false, polled_after_end: false, next_calls: 0 }
+    Src { count, produced: 0, lo, hi, ended: false, polled_after_end: false, next_calls: 0, max_calls: usize::MAX }
 }
 
 pub fn collect<T, N: ArrayLength, const R: usize>() {
     let n = N::USIZE;
     let mut src = script(n + 3);
+    src.max_calls = n + 1;
     let c = src.count;
     let truthful = src.lo <= c && src.hi.map_or(true, |h| c <= h);
     let ruled_out = src.lo > n || src.hi.map_or(false, |h| h < n);
@@ -89,7 +94,8 @@ pub fn collect<T, N: ArrayLength, const R: usize>() {
 /// from_iter / collect must panic (never return) when the count is wrong
 pub fn collect_panics<T, N: ArrayLength, const R: usize>() {
     let n = N::USIZE;
-    let mut src = script(n + 2);
+    let mut src = script(n + 3);
+    src.max_calls = n + 1;
     assume(src.count != n);
     if any_bool() {
         let a: GenericArray<Tr, N> = (&mut src).collect();
@@ -104,6 +110,7 @@ pub fn collect_panics<T, N: ArrayLength, const R: usize>() {
 pub fn collect_ok<T, N: ArrayLength, const R: usize>() {
     let n = N::USIZE;
     let mut src = script(n);
+    src.max_calls = n + 1;
     assume(src.count == n && src.lo <= n && src.hi.map_or(true, |h| n <= h));
     if any_bool() {
         let a: GenericArray<Tr, N> = (&mut src).collect();
